@@ -16,8 +16,8 @@ from . import _script, _util as U, c11
 PID = "C08"
 MOD = "bbverif.checks.c08"
 
-EXPRS1 = ["q0*2", "-q1", "q5/4+1", "q12**2", "2/q0", "(q0+1)*(q0-1)", "q0", "0.5*q1-q1*q1", "q12*q12*q12/8", "q5+q5"]
-EXPRS2 = ["q0+q1", "q0*q1-3", "q1/q0", "q0-q1*0.5", "q12*q5+q5", "(q1+q0)*(q1-q0)", "q5**2/q1", "-q0-q12", "q1*2+q0*4-q1", "q0*q12/2"]
+EXPRS1 = ["-q1**2", "-(q5**2)", "2**-q0", "q0*2", "-q1", "q5/4+1", "q12**2", "2/q0", "(q0+1)*(q0-1)", "q0", "0.5*q1-q1*q1", "q12*q12*q12/8", "q5+q5"]
+EXPRS2 = ["-q0**2+q1", "q1*-q0**2", "(q1+1)/-q5**2", "q0+q1", "q0*q1-3", "q1/q0", "q0-q1*0.5", "q12*q5+q5", "(q1+q0)*(q1-q0)", "q5**2/q1", "-q0-q12", "q1*2+q0*4-q1", "q0*q12/2"]
 EXPRS3 = ["q0+2*q1-q5*0.25", "q0*q1*q5", "(q0+q1)/q5", "q12-q5+q1", "q1*q5+q0*q12", "q0/(q1*q5)"]
 FUNCS = ["sin(q0)*2", "exp(q1)+q0", "sqrt(q5)/q0"]
 
